@@ -14,6 +14,7 @@ package main
 import (
 	"errors"
 	"fmt"
+	"math"
 	"os"
 	"reflect"
 	"sort"
@@ -380,6 +381,13 @@ func impl(c Case) string {
 				s[i] = i + 1
 			}
 			return rangesOf(s, xslices.Chunk(s, atoi(a[1])))
+		case "chunkz":
+			s := make([]struct{}, atoi(a[0]))
+			var lens []string
+			for _, ch := range xslices.Chunk(s, atoi(a[1])) {
+				lens = append(lens, strconv.Itoa(len(ch)))
+			}
+			return "lens=" + strings.Join(lens, ",")
 		case "removeunordered":
 			s := clone(decList(a[0]))
 			ret := xslices.RemoveUnordered(s, atoi(a[1]), atoi(a[2]))
@@ -725,7 +733,7 @@ func nontrivial(c Case) bool {
 	for _, a := range c.Args {
 		n += strings.Count(a, ",") + strings.Count(a, "|") + strings.Count(a, ".")
 	}
-	return n >= 2 || c.Fn == "abs" || c.Fn == "clamp" || c.Fn == "chunk" || c.Fn == "shrink"
+	return n >= 2 || c.Fn == "abs" || c.Fn == "clamp" || c.Fn == "chunk" || c.Fn == "shrink" || c.Fn == "chunkz"
 }
 
 // ---------------------------------------------------------------------------------------------
@@ -788,7 +796,120 @@ var fnNames = append([]string{"chunk", "removeunordered", "reverse", "partition"
 	"search", "lesscompare", "merge", "mergeslices", "mink", "union", "intersection", "intersects", "difference",
 	"mapreverse", "reversesingle", "toindex", "fromkv", "abs", "clamp", "extras", "withstack", "wsws", "wsunwrap", "unwrap", "is", "wsis", "as", "wsas"}, moreFns...)
 
+// ---------------------------------------------------------------------------------------------
+// extreme index / count arguments (C19 F1): the property quantifies over "all index/count arguments
+// ... all integer widths and extreme values". Every helper that takes an index or a count is also
+// called with MaxInt, MaxInt-1, MinInt, +-2^62, MaxInt/2+1, MaxInt-len ... in those positions. All
+// pool values have magnitude >= 2^61, so an allocation of that many elements fails with a recoverable
+// "len out of range" panic rather than exhausting memory.
+var extremePool = []int{math.MaxInt, math.MaxInt - 1, math.MinInt, math.MinInt + 1, 1 << 62, -(1 << 62), 1<<62 + 1, 1<<62 - 1,
+	math.MaxInt/2 + 1, math.MaxInt / 2, math.MinInt / 2, math.MaxInt - 2, 1 << 61}
+
+// extremeArgs: positions of the index / count arguments of each sub-command.
+var extremeArgs = map[string][]int{
+	"chunk": {1}, "removeunordered": {1, 2}, "shrink": {2}, "mink": {2}, "repeat": {1}, "grow": {2}, "insert": {2},
+	"remove": {2, 3}, "clamp": {0, 1, 2}, "min": {0, 1}, "max": {0, 1}, "orderedless": {0, 1},
+}
+
+func extremeInt(r *vlib.Rand, n int) int {
+	switch r.Intn(5) {
+	case 0:
+		return math.MaxInt - r.Intn(n+3) // MaxInt-len-2 .. MaxInt: len+n just (not) overflowing
+	case 1:
+		return math.MinInt + r.Intn(n+3)
+	}
+	return extremePool[r.Intn(len(extremePool))]
+}
+
+// genCase: a random case; every 6th case of a helper with index/count arguments gets extreme values
+// in one or all of those positions.
 func genCase(r *vlib.Rand, fn string, big bool) Case {
+	c := genCase0(r, fn, big)
+	pos := extremeArgs[fn]
+	if len(pos) == 0 || len(c.Args) == 0 || !r.Chance(1, 6) {
+		return c
+	}
+	n := 0
+	for _, a := range c.Args {
+		if strings.Contains(a, ",") {
+			n = len(decList(a))
+			break
+		}
+	}
+	if fn == "chunk" {
+		n = atoi(c.Args[0])
+	}
+	all := r.Chance(1, 3)
+	pick := pos[r.Intn(len(pos))]
+	for _, p := range pos {
+		if p < len(c.Args) && (all || p == pick) {
+			c.Args[p] = strconv.Itoa(extremeInt(r, n))
+		}
+	}
+	return c
+}
+
+// chunkzCases: Chunk on slices of zero-size elements whose LENGTH is extreme (the only way to have a
+// slice with len near MaxInt): `chunkz <len> <size>`, chunk sizes >= 2^60 so that there are at most a
+// handful of chunks. Compared: number and lengths of the chunks.
+func chunkzCases() []Case {
+	I := strconv.Itoa
+	var cs []Case
+	lens := []int{math.MaxInt, math.MaxInt - 1, math.MaxInt/2 + 2, math.MaxInt/2 + 1, 1 << 62, 1<<62 + 1, 1<<62 - 1, 1 << 61, 3 << 60, 0, 1, 5}
+	for _, l := range lens {
+		for _, sz := range []int{math.MaxInt, math.MaxInt - 1, math.MaxInt/2 + 1, math.MaxInt / 2, 1 << 62, 1<<62 + 1, 1<<62 - 1, 1 << 61, 1<<61 + 1, 3 << 60, 1 << 60,
+			l, l - 1, l + 1, l / 2, l/2 + 1, l / 3, l/3 + 1} {
+			if sz >= 1<<60 {
+				cs = append(cs, Case{"chunkz", []string{I(l), I(sz)}})
+			}
+		}
+	}
+	return cs
+}
+
+// extremeSweep: every helper with index/count arguments on a few small slices x every extreme value
+// (and MaxInt-len-2..MaxInt, MinInt..MinInt+len+2) in each such position, the other positions
+// ranging over {0, 1, len}. Deterministic and complete; runs on every tier.
+func extremeSweep() []Case {
+	I := strconv.Itoa
+	var cs []Case
+	for _, l := range [][]int{{}, {1}, {1, 2}, {1, 2, 3}, {3, 1, 2, 2, 1}} {
+		n := len(l)
+		el := encList(l)
+		vals := append([]int{}, extremePool...)
+		for d := 0; d <= n+2; d++ {
+			vals = append(vals, math.MaxInt-d, math.MinInt+d)
+		}
+		small := []int{0, 1, n}
+		for _, v := range vals {
+			cs = append(cs, Case{"chunk", []string{I(n), I(v)}})
+			cs = append(cs, Case{"repeat", []string{I(7), I(v)}})
+			for _, c := range []int{1, 2} {
+				cs = append(cs, Case{"mink", []string{I(c), I(0), I(v), el}}, Case{"mink", []string{I(c), I(1), I(v), el}})
+			}
+			cs = append(cs, Case{"clamp", []string{I(v), I(-1), I(1)}}, Case{"clamp", []string{I(0), I(v), I(math.MaxInt)}},
+				Case{"clamp", []string{I(0), I(math.MinInt), I(v)}}, Case{"min", []string{I(v), I(1)}}, Case{"max", []string{I(1), I(v)}},
+				Case{"orderedless", []string{I(v), I(-v - 1)}})
+			for _, extra := range []int{0, 1, 3} {
+				cs = append(cs, Case{"shrink", []string{el, I(n + extra), I(v)}})
+				cs = append(cs, Case{"grow", []string{el, I(n + extra), I(v)}})
+				cs = append(cs, Case{"insert", []string{el, I(n + extra), I(v), "91,92"}})
+				for _, o := range small {
+					cs = append(cs, Case{"remove", []string{el, I(n + extra), I(v), I(o)}}, Case{"remove", []string{el, I(n + extra), I(o), I(v)}})
+				}
+			}
+			for _, o := range small {
+				cs = append(cs, Case{"removeunordered", []string{el, I(v), I(o)}}, Case{"removeunordered", []string{el, I(o), I(v)}})
+			}
+			for _, w := range []int{math.MaxInt, math.MinInt, 1 << 62, -(1 << 62)} {
+				cs = append(cs, Case{"removeunordered", []string{el, I(v), I(w)}}, Case{"remove", []string{el, I(n), I(v), I(w)}})
+			}
+		}
+	}
+	return cs
+}
+
+func genCase0(r *vlib.Rand, fn string, big bool) Case {
 	I := strconv.Itoa
 	n := randLen(r, big)
 	arg := func(n int) int { return r.Range(-2, n+2) }
@@ -1268,6 +1389,10 @@ func main() {
 		}
 	}
 	run.batch(corpus)
+	// extreme index / count arguments (deterministic, complete on every tier)
+	ext := append(extremeSweep(), chunkzCases()...)
+	run.batch(ext)
+	res.Extra["extreme_argument_cases"] = len(ext)
 
 	start := time.Now()
 	budget := time.Duration(env.BudgetMs) * time.Millisecond
@@ -1297,7 +1422,7 @@ func main() {
 }
 
 var fnSet = func() map[string]bool {
-	m := map[string]bool{}
+	m := map[string]bool{"chunkz": true}
 	for _, f := range fnNames {
 		m[f] = true
 	}
